@@ -164,3 +164,108 @@ Definition dcase_code (c : dcase) : nat :=
       end
   end.
 Definition dcodes (l : list dcase) : list nat := map dcase_code l.
+
+(* ================================================================== (strengthening round 4) declarations and USES: Model/DeclUse.v
+   A generated program is a tree of source-level events: a declaration (marker id, decorator class, the enclosing classes,
+   the name as spelled, the events written in its body) or a use (call form, the classes whose prefix `this.` means, the
+   callee as spelled).  Names become paths by Model/ResLoc.v's `convention` (fail closed); the kind of an `@if` function is
+   decided by Model/DeclUse.v's `if_kind` on the converted NAME. *)
+From JMCV Require Model.DeclUse.
+Module DU := Model.DeclUse.
+
+Inductive sdeco := DPlain | DSaved | DLazy | DIf.
+Inductive suev :=
+| SUDecl (id : nat) (d : sdeco) (classes : list string) (name : string) (body : list suev)
+| SUCall (f : DU.cform) (classes : list string) (spelling : string).
+
+Definition kind_of (d : sdeco) (converted_name : string) : DU.ukind :=
+  match d with DPlain => DU.UPlain | DSaved => DU.USaved | DLazy => DU.UTemplate | DIf => DU.if_kind converted_name end.
+
+Fixpoint to_uev (strict : bool) (e : suev) : option DU.uev :=
+  match e with
+  | SUDecl id d cl n body =>
+      match sprefix strict cl, convention strict true "" n,
+            (fix go (l : list suev) : option (list DU.uev) :=
+               match l with
+               | [] => Some []
+               | x :: r => match to_uev strict x, go r with Some a, Some b => Some (a :: b) | _, _ => None end
+               end) body with
+      | Some pre, inr nm, Some b => Some (DU.UDecl id (kind_of d nm) (pre ++ nm) b)
+      | _, _, _ => None
+      end
+  | SUCall f cl sp =>
+      match sprefix strict cl with
+      | Some pre => match convention strict true pre sp with inr p => Some (DU.UCall f p) | inl _ => None end
+      | None => None
+      end
+  end.
+Fixpoint to_uevs (strict : bool) (l : list suev) : option (list DU.uev) :=
+  match l with
+  | [] => Some []
+  | e :: r => match to_uev strict e, to_uevs strict r with Some x, Some y => Some (x :: y) | _, _ => None end
+  end.
+
+(* the path of the declaration with marker id *)
+Fixpoint upath_of (id : nat) (e : DU.uev) : option string :=
+  match e with
+  | DU.UDecl id' _ p body =>
+      if Nat.eqb id id' then Some p else
+      (fix go (l : list DU.uev) : option string :=
+         match l with [] => None | x :: r => match upath_of id x with Some p => Some p | None => go r end end) body
+  | DU.UCall _ _ => None
+  end.
+Fixpoint upath_in (id : nat) (l : list DU.uev) : option string :=
+  match l with [] => None | x :: r => match upath_of id x with Some p => Some p | None => upath_in id r end end.
+
+(* what the real compiler did *)
+Inductive ureal :=
+| YDup (id : nat) (path : string)       (* "Duplicate function declaration(<path>)" pointing at the name of declaration id *)
+| YUndef (lazy : bool)
+| YExecForm                             (* "Lazy function with multiple commands / without any command cannot be used with execute." *)
+| YOk (files : list (string * (nat * list DU.line)))   (* function file -> (the declaration whose marker is its first command, the other commands) *)
+      (load : list DU.line)             (* the commands of the load function written by load statements *)
+| YOther.
+
+Record ucase := mkUCase { uq_strict : bool; uq_evs : list suev; uq_real : ureal }.
+
+Fixpoint line_eqb (a b : DU.line) : bool :=
+  match a, b with
+  | DU.LMark i, DU.LMark j => Nat.eqb i j
+  | DU.LFun p, DU.LFun q => String.eqb p q
+  | DU.LFunArgs p, DU.LFunArgs q => String.eqb p q
+  | DU.LRun x, DU.LRun y => line_eqb x y
+  | _, _ => false
+  end.
+Fixpoint lines_eqb (a b : list DU.line) : bool :=
+  match a, b with
+  | [], [] => true
+  | x :: a', y :: b' => line_eqb x y && lines_eqb a' b'
+  | _, _ => false
+  end.
+(* the model stores (id, marker :: commands); the harness reports (id, commands after the marker) *)
+Definition fentry_eqb (m r : string * (nat * list DU.line)) : bool :=
+  String.eqb (fst m) (fst r) && Nat.eqb (fst (snd m)) (fst (snd r)) &&
+  lines_eqb (snd (snd m)) (DU.LMark (fst (snd r)) :: snd (snd r)).
+Definition fentries_eqb (m r : list (string * (nat * list DU.line))) : bool :=
+  forallb (fun x => existsb (fentry_eqb x) r) m && forallb (fun y => existsb (fun x => fentry_eqb x y) m) r &&
+  Nat.eqb (List.length m) (List.length r).
+
+Definition ufuel : nat := 400.
+
+(* 0 agree; 1 verdict differs; 2 another declaration / path cited; 3 a function file differs from `functions`;
+   4 the load function differs; 5 a name the model cannot convert *)
+Definition ucase_code (c : ucase) : nat :=
+  match to_uevs (uq_strict c) (uq_evs c) with
+  | None => 5
+  | Some evs =>
+      match DU.compile ufuel evs, uq_real c with
+      | DU.VDup i, YDup i' p =>
+          if Nat.eqb i i' && match upath_in i evs with Some q => String.eqb q p | None => false end then 0 else 2
+      | DU.VUndefined b, YUndef b' => if Bool.eqb b b' then 0 else 1
+      | DU.VExecForm, YExecForm => 0
+      | DU.VOk t ls, YOk files load =>
+          if negb (fentries_eqb (DU.t_funs t) files) then 3 else if lines_eqb ls load then 0 else 4
+      | _, _ => 1
+      end
+  end.
+Definition ucodes (l : list ucase) : list nat := map ucase_code l.
